@@ -111,14 +111,6 @@ Definition visible (len : nat) (cells : list nat) (canvas : list N) : list (list
 
 Definition nnlist_eqb := list_eqb nlist_eqb.
 
-(* cells the reference no-wrap placement keeps *)
-Fixpoint keep_placed {A} (xs : list A) (ps : list (option (nat * nat))) : list A :=
-  match xs, ps with
-  | x :: xt, Some _ :: pt => x :: keep_placed xt pt
-  | _ :: xt, None :: pt => keep_placed xt pt
-  | _, _ => []
-  end.
-
 Definition expected_kinds (ctx : rctx) (cells : list ccell) (wraps : bool) (w : nat) : list (list N) :=
   let pr := printables ctx cells in
   if wraps then map (fun c => enc_kind (c_kind c)) pr
